@@ -282,6 +282,10 @@ func (r *checkRun) run() int {
 		}
 	}
 	contracts := selectContracts(w, r.cfg)
+	w.verifiedHere = map[string]bool{}
+	for _, fc := range contracts {
+		w.verifiedHere[fc.Key] = true
+	}
 	if len(contracts) == 0 {
 		return r.fatalViolation("contracts", "no function under contract found (vacuous check)")
 	}
